@@ -4,11 +4,71 @@ import (
 	"fmt"
 	"math/big"
 	"strings"
+
+	"github.com/elementsproject/glightning/glightning"
+	"github.com/elementsproject/peerswap/clightning"
+	"github.com/lightningnetwork/lnd/lnrpc"
 )
 
 func init() {
 	monitors["C11"] = func(r *rng, n int, res *MonitorResult) {
 		res.Rule = "request × node-configuration cases (valid base, up to three perturbed dimensions incl. wrapping amounts) through the real SwapService with simulated Lightning/wallet and the real premium.Setting; judged: exactly one answer; an agreement only if every stated condition holds on the REAL (unwrapped) amounts; distinct = distinct cases"
+		// "fits the channel" starts with what the Lightning adapters report as sendable / receivable: the REAL LND
+		// adapter over a fake gRPC node and the CLN adapter's channel arithmetic, on channels whose balance is below,
+		// at and above the channel reserve (a channel funded by one side alone has the other side below its reserve)
+		for _, bal := range []int64{0, 1, 5000, 9999, 10000, 10001, 2000000} {
+			for _, reserve := range []uint64{0, 10000} {
+				rig := newLndWalletRig(rateEstimator{})
+				ch := &lnrpc.Channel{Active: true, RemotePubkey: "02" + strings.Repeat("cd", 32), ChanId: (100 << 40) | (1 << 16),
+					Capacity: 4000000, LocalBalance: bal, RemoteBalance: bal,
+					LocalConstraints: &lnrpc.ChannelConstraints{ChanReserveSat: reserve}, RemoteConstraints: &lnrpc.ChannelConstraints{ChanReserveSat: reserve}}
+				rig.ln.chans = []*lnrpc.Channel{ch}
+				truth := uint64(0)
+				if uint64(bal) > reserve {
+					truth = (uint64(bal) - reserve) * 1000
+				}
+				for _, dir := range []string{"receivable", "spendable"} {
+					var got uint64
+					var err error
+					if dir == "receivable" {
+						got, err = rig.client.ReceivableMsat("100x1x0")
+					} else {
+						got, err = rig.client.SpendableMsat("100x1x0")
+					}
+					res.Evaluations++
+					res.Distinct++
+					res.Histogram["adapter lnd "+dir]++
+					if err == nil && got > truth {
+						res.addFinding("C11/adapter/lnd/"+dir+"-above-balance-minus-reserve", fmt.Sprintf("LND adapter reports %d msat %s on a channel side with balance %d sat and reserve %d sat (at most %d msat can move): every amount 'fits the channel'", got, dir, bal, reserve, truth),
+							map[string]interface{}{"balance_sat": bal, "reserve_sat": reserve, "direction": dir})
+					}
+				}
+				// CLN: lightningd reports 0 when the side is below its reserve; the adapter then falls back to its own
+				// subtraction
+				pc := clightning.PeerChannel{TotalMsat: glightning.AmountFromMSat(4000000000), ToUsMsat: glightning.AmountFromMSat(4000000000 - uint64(bal)*1000),
+					TheirReserveMsat: glightning.AmountFromMSat(reserve * 1000), OurReserveMsat: glightning.AmountFromMSat(reserve * 1000)}
+				if truth > 0 {
+					pc.ReceivableMsat = glightning.AmountFromMSat(truth)
+				}
+				res.Evaluations++
+				res.Histogram["adapter cln receivable"]++
+				if got := pc.GetReceivableMsat(); got > truth {
+					res.addFinding("C11/adapter/cln/receivable-above-balance-minus-reserve", fmt.Sprintf("CLN adapter reports %d msat receivable on a channel whose peer holds %d sat with a reserve of %d sat (lightningd: receivable_msat 0)", got, bal, reserve),
+						map[string]interface{}{"peer_balance_sat": bal, "reserve_sat": reserve})
+				}
+				ps := clightning.PeerChannel{TotalMsat: glightning.AmountFromMSat(4000000000), ToUsMsat: glightning.AmountFromMSat(uint64(bal) * 1000),
+					TheirReserveMsat: glightning.AmountFromMSat(reserve * 1000), OurReserveMsat: glightning.AmountFromMSat(reserve * 1000)}
+				if truth > 0 {
+					ps.SpendableMsat = glightning.AmountFromMSat(truth)
+				}
+				res.Evaluations++
+				res.Histogram["adapter cln spendable"]++
+				if got := ps.GetSpendableMsat(); got > truth {
+					res.addFinding("C11/adapter/cln/spendable-above-balance-minus-reserve", fmt.Sprintf("CLN adapter reports %d msat spendable on a channel where the node holds %d sat with a reserve of %d sat (lightningd: spendable_msat 0)", got, bal, reserve),
+						map[string]interface{}{"balance_sat": bal, "reserve_sat": reserve})
+				}
+			}
+		}
 		seen := map[string]bool{}
 		cases := []admitCase{}
 		// deterministic witness of the known finding: amount*1000 wraps below the channel capacity
